@@ -17,7 +17,7 @@ NONTRIVIAL = [w for w in WITNESSES if w != "off_season_day"]
 
 STRATS = (
     [(0, {}, None)]
-    + [(1, {"SMT": smt}, None) for smt in ([100] * 4, [80, 60, 40, 20], [70] * 4, [0] * 4)]
+    + [(1, {"SMT": smt}, None) for smt in ([100] * 4, [80, 60, 40, 20], [70] * 4, [0] * 4, [20, 40, 60, 80])]
     + [(2, {"IrrInterval": k}, None) for k in (1, 3, 7)]
     + [(3, {}, sch) for sch in ("empty", "inseason", "outside", "daily", "big")]
     + [(4, {"NetIrrSMT": x}, None) for x in (50, 80, 100)]
@@ -40,9 +40,11 @@ def irr_spec(method, kw, sch, maxirr, maxseason, eff, wetsurf=100):
 def scenarios(tier, seed=0):
     words = ["dry"] if tier == "quick" else ["dry", "normal"]
     crops = ["maize.2"] if tier == "quick" else ["maize.2", "potato.2"]
-    for (method, kw, sch), mi, ms, eff, iwc, word, ck in itertools.product(STRATS, MAXIRR, MAXSEASON, APPEFF, ["WP", "FC"], words, crops):
-        c = A._b(crop=ck, iwc=iwc, word=word, win="w2", soil="SandyLoam")
-        yield {"kind": "irr", "config": c, "irr": irr_spec(method, kw, sch, mi, ms, eff)}
+    for (method, kw, sch), mi, ms, eff, word, ck in itertools.product(STRATS, MAXIRR, MAXSEASON, APPEFF, words, crops):
+        # threshold irrigation also from intermediate initial depletions (the day-1 decision depends on the stage-1 threshold)
+        for iwc in (["WP", "FC", "Pct40", "Pct70"] if method == 1 else ["WP", "FC"]):
+            c = A._b(crop=ck, iwc=iwc, word=word, win="w2", soil="SandyLoam")
+            yield {"kind": "irr", "config": c, "irr": irr_spec(method, kw, sch, mi, ms, eff)}
     if tier != "quick":
         # starts after planting / off-season simulated / partial wetting / full-length crops
         for (method, kw, sch), off, wet in itertools.product(STRATS, [True], [100, 30]):
@@ -87,13 +89,13 @@ def run(scn):
 
 def describe(tier):
     return {
-        "rule": "the complete irrigation sub-product: 19 strategy settings (method 0; 1 x 4 threshold vectors; 2 x 3 intervals; 3 x 5 schedules incl. "
+        "rule": "the complete irrigation sub-product: 20 strategy settings (method 0; 1 x 5 threshold vectors (descending, ascending, constant) from WP / FC / 40 % / 70 % of TAW; 2 x 3 intervals; 3 x 5 schedules incl. "
                 "empty / dates outside seasons / every day / depth above the daily maximum; 4 x 3 targets; 5 x 3 depths) x MaxIrr {25,5,0} x "
                 "MaxIrrSeason {10000,60,0} x AppEff {100,70,40} x initial water {WP,FC} x words x 2 seasons with pre-season days"
                 + ("" if tier == "quick" else "; plus off-season/partial-wetting variants and Maize/Wheat at full length")
                 + "; the per-strategy contract is evaluated on every transition, the threshold/interval decision and amount are re-computed from the "
                 "inputs and outputs of the real irrigation() call captured by a pass-through wrapper and cross-checked against the IrrDay column.",
-        "bound": "sub-product complete: 19 x 3 x 3 x 3 x 2 x " + ("1 word x 1 crop" if tier == "quick" else "2 words x 2 crops"),
+        "bound": "sub-product complete: 20 x 3 x 3 x 3 x (2 or 4 initial contents) x " + ("1 word x 1 crop" if tier == "quick" else "2 words x 2 crops"),
         "exhaustive": True,
         "witnesses": WITNESSES,
         "assumptions": ["'adjusted for application efficiency' is accepted either as x(200-AppEff)/100 (the code's) or as /(AppEff/100)",
